@@ -150,12 +150,15 @@ FUNCS = {"<func>f": f_f, "<func>g": f_g, "<func>h": f_h, "<func>k": f_k}
 INPUTS = [
     {"t": 0, "dt": 1, "state": {"y": 0}},
     {"t": 0, "dt": 1, "state": {"y": 2}},
+    {"t": 1.5, "dt": 0.5, "state": {"y": -0.5}},      # negative, fractional state; non-zero start time
 ]
 RUNS = [
     (0, ("run", {"max_steps": 4})),
     (1, ("run", {"max_steps": 5})),
     (1, ("run", {"t_end": 2})),
     (0, ("single", 3)),
+    (2, ("run", {"max_steps": 3})),
+    (2, ("run", {"t_end": 2.5})),
 ]
 
 
@@ -165,11 +168,11 @@ def bounds(tier):
                 "mid_atoms": len(MID_ATOMS), "core_conds": len(CORE_CONDS), "max_nesting": 2,
                 "control_skeletons": "all bodies with 4-5 items over 3 atoms x 2 conditions",
                 "phase_names": "8 names that are not plain identifiers x all bodies <= 1 item over the mid alphabet",
-                "inputs": 2, "runs_per_description": len(RUNS), "max_steps": 5, "horizon_events": 16}
+                "inputs": 3, "runs_per_description": len(RUNS), "max_steps": 5, "horizon_events": 16}
     return {"k_full_alphabet": 3, "k_core_alphabet": 4, "atoms": len(ATOMS), "conds": len(CONDS),
             "control_skeletons": "all bodies with 4-5 items over 4 atoms x 2 conditions",
             "core_atoms": len(CORE_ATOMS), "core_conds": len(CORE_CONDS), "max_nesting": 2,
-            "inputs": 2, "runs_per_description": len(RUNS), "max_steps": 5, "horizon_events": 16}
+            "inputs": 3, "runs_per_description": len(RUNS), "max_steps": 5, "horizon_events": 16}
 
 
 # ---- enumeration of bodies (as *shapes* over item names) -----------------------------
